@@ -22,7 +22,7 @@ ASSUMPTIONS = [
 ]
 TRUSTED = ['Lean 4.33 kernel', 'correspondence harness harness/props/c18.py + Driver/C18.lean',
            'generator reach (see histogram)']
-EXHAUSTIVE = {'quick': False, 'thorough': False}
+EXHAUSTIVE = {'quick': False, 'thorough': False}   # the exhaustive part is a sub-space; random histories go beyond it
 
 net = None
 CLASSES = {}
@@ -53,6 +53,10 @@ class ErrorInOp(Exception):
     pass
 
 
+class BadRef(Exception):
+    """the protocol line refers to a unit / stream / port that does not exist"""
+
+
 ERRMAP = [(IndexError, 'IndexError'), (RuntimeError, 'RuntimeError'), (ValueError, 'ValueError'),
           (TypeError, 'TypeError'), (AttributeError, 'TypeError')]
 
@@ -65,16 +69,25 @@ class Universe:
         self.shape = []
 
     # -- references ---------------------------------------------------------
+    def unit(self, u):
+        u = int(u)
+        if not 0 <= u < len(self.units): raise BadRef(f'U{u}')
+        return self.units[u]
+
     def seq(self, k, u):
-        return self.units[u].ins if k == 'i' else self.units[u].outs
+        un = self.unit(u)
+        return un.ins if k == 'i' else un.outs
 
     def ref(self, t):
-        if t.startswith('s'):
-            return self.streams[int(t[1:])]
-        if t.startswith('p'):
-            k, u, i = t[1:].split('.')
-            return self.seq(k, int(u))._streams[int(i)]
-        raise ValueError(t)
+        try:
+            if t.startswith('s'):
+                return self.streams[int(t[1:])]
+            if t.startswith('p'):
+                k, u, i = t[1:].split('.')
+                return self.seq(k, int(u))._streams[int(i)]
+        except IndexError:
+            raise BadRef(t)
+        raise BadRef(t)
 
     def optref(self, t):
         return None if t == 'none' else self.ref(t)
@@ -209,32 +222,32 @@ class Universe:
                 if x == '-': return None
                 if x == '[]': return []
                 return [self.portref(y) for y in x.split(',')]
-            self.units[int(t[1])].disconnect(inlets=lst(t[2]), outlets=lst(t[3]), join_ends=(t[4] == '1'))
+            self.unit(t[1]).disconnect(inlets=lst(t[2]), outlets=lst(t[3]), join_ends=(t[4] == '1'))
         elif op == 'tpo':
-            self.units[int(t[1])].take_place_of(self.units[int(t[2])])
+            self.unit(t[1]).take_place_of(self.unit(t[2]))
         elif op == 'rww':
-            self.units[int(t[1])].replace_with(self.units[int(t[2])])
+            self.unit(t[1]).replace_with(self.unit(t[2]))
         elif op == 'rwn':
-            self.units[int(t[1])].replace_with(None)
+            self.unit(t[1]).replace_with(None)
         elif op == 'recon':
             def port(x):
                 if x == '-': return (None, None)
-                u, i = x.split(':'); return (self.units[int(u)], int(i))
+                u, i = x.split(':'); return (self.unit(u), int(i))
             (su, si), (ku, ki) = port(t[1]), port(t[3])
             net.Connection(su, si, self.ref(t[2]), ki, ku).reconnect()
         elif op == 'uins':
             def pr(x): return None if x == '-' else self.portref(x)
-            self.units[int(t[1])].insert(self.ref(t[2]), inlet=pr(t[3]), outlet=pr(t[4]))
+            self.unit(t[1]).insert(self.ref(t[2]), inlet=pr(t[3]), outlet=pr(t[4]))
         elif op == 'pipe_s_i_u':
-            self.ref(t[1]) - int(t[2]) - self.units[int(t[3])]
+            self.ref(t[1]) - int(t[2]) - self.unit(t[3])
         elif op == 'pipe_u_i_s':
-            self.units[int(t[1])] ** int(t[2]) ** self.ref(t[3])
+            self.unit(t[1]) ** int(t[2]) ** self.ref(t[3])
         elif op == 'pipe_u_u':
-            self.units[int(t[1])] - self.units[int(t[2])]
+            self.unit(t[1]) - self.unit(t[2])
         elif op == 'pipe_ss_u':
-            tuple(self.optrefs(t[1])) - self.units[int(t[2])]
+            tuple(self.optrefs(t[1])) - self.unit(t[2])
         elif op == 'pipe_u_ss':
-            self.units[int(t[1])] - tuple(self.optrefs(t[2]))
+            self.unit(t[1]) - tuple(self.optrefs(t[2]))
         else:
             raise ErrorInOp('unknown op ' + line)
         return pre + self.show()
@@ -256,6 +269,9 @@ def run_ops(ops):
             o = U.apply(line)
         except ErrorInOp:
             raise
+        except BadRef:
+            outs.append('bad-op'); dead = True
+            continue
         except Exception as e:
             for cls, nm in ERRMAP:
                 if isinstance(e, cls):
@@ -540,8 +556,65 @@ def gen_case(rng, n_units, n_streams, length):
     return Case(ops, {})
 
 
+BASE = ['stream'] * 5 + ['unit 2 1 M 1 1 M', 'unit 1 0 M 2 1 M', 'unit 2 1 M 2 0 M']
+
+
+def alphabet():
+    """the finite operation alphabet over the 3-unit / 5-stream universe (indices 0..1, whole-list
+    slices of up to two streams); used for exhaustive enumeration"""
+    ops = []
+    S = [f's{i}' for i in range(5)]
+    for u in range(3):
+        for k in 'io':
+            for i in (0, 1):
+                for s in S + ['none']:
+                    ops.append(f'set {k} {u} {i} {s}')
+                ops.append(f'pop {k} {u} {i}')
+                for s in S[:3]:
+                    ops.append(f'ins {k} {u} {i} {s}')
+            for s in S:
+                ops.append(f'app {k} {u} {s}')
+                ops.append(f'rem {k} {u} {s}')
+            ops.append(f'clr {k} {u}'); ops.append(f'emp {k} {u}')
+            ops.append(f'sliceall {k} {u} []')
+            for s in S[:3]:
+                ops.append(f'sliceall {k} {u} {s}')
+            ops.append(f'sliceall {k} {u} s0,s1'); ops.append(f'sliceall {k} {u} s3,none')
+            ops.append(f'rep {k} {u} p{k}.{u}.0 s4'); ops.append(f'rep {k} {u} p{k}.{u}.0 none')
+        for v in range(3):
+            if v != u:
+                ops.append(f'tpo {u} {v}'); ops.append(f'pipe_u_u {u} {v}')
+        ops.append(f'rwn {u}')
+        ops.append(f'udisc {u} - - 0'); ops.append(f'udisc {u} - - 1'); ops.append(f'udisc {u} i0 i0 0')
+        for s in S[:2]:
+            ops.append(f'uins {u} {s} - -')
+    for s in S:
+        ops += [f'dsrc {s}', f'dsnk {s}', f'disc {s}']
+    return ops
+
+
 def generate(rng, tier, index, nworkers):
     b = budget(tier)
+    A = alphabet()
+    # exhaustive part: every sequence of length 1 (quick) / 2 (thorough) over the alphabet from the
+    # empty 3-unit / 5-stream universe; plus every single op from random reachable states
+    if tier == 'thorough':
+        pairs = [(a, c) for a in A for c in A]
+        for j in range(index, len(pairs), nworkers):
+            yield Case(BASE + list(pairs[j]), {'exhaustive': 2})
+    else:
+        for j in range(index, len(A), nworkers):
+            yield Case(BASE + [A[j]], {'exhaustive': 1})
+    for _ in range(6 if tier == 'quick' else 40):
+        pre = gen_case(rng, 3, 5, rng.randrange(2, 10)).ops
+        # keep only if the prefix has the standard universe shape (3 units, 5 streams at the front)
+        base = ['stream'] * 5 + [l for l in pre if l.startswith('unit')][:3]
+        if len(base) != 8: continue
+        mid = [l for l in pre if not l.startswith('unit') and l != 'stream']
+        for a in A:
+            if rng.random() < (0.5 if tier == 'quick' else 1.0):
+                yield Case(base + mid + [a], {'exhaustive': 'frontier'})
+
     n = max(1, b['cases'] // nworkers)
     for j in range(n):
         r = rng.random()
